@@ -111,7 +111,7 @@ def put_child_in_state(bld, p, state, rng):
         if c is not None:
             bld.emit(rng.choice(["stop", "drain"]), c)
         return c
-    c = bld.spawn(p, rng=rng, ps=rng.random() < 0.2)
+    c = bld.spawn(p, rng=rng, ps=rng.random() < 0.4)
     if c is None:
         return None
     if state == "handler":
@@ -164,6 +164,46 @@ def gen_systematic():
                     bld.emit("open", p, "ps")
                 bld.emit("flush")
                 out.append(bld.scenario(f"sys:{state}:{cause}:{mid}"))
+    return out
+
+
+def gen_stopping_middle():
+    """depth >= 3: an intermediate node is already Stopping (parked in a gated post_stop) and still holds
+    live children when an ancestor exits, by each cause; the ancestor is the parent or the grandparent of
+    the stopping node; the nodes below it are in assorted statuses"""
+    import random
+    rng = random.Random(11)
+    out = []
+    for cause in CAUSES:
+        for top in ("parent", "grandparent"):
+            for how in ("stop", "drain"):
+                for below in ("running", "handler", "draining", "deep"):
+                    bld = Builder(7)
+                    parked = cause in ("stop", "drain")
+                    if top == "grandparent":
+                        r = bld.spawn(None, kind=0, ps=parked)
+                        x = bld.spawn(r, kind=1)
+                    else:
+                        r = bld.spawn(None, kind=rng.choice([0, 2]), ps=parked)
+                        x = r
+                    m = bld.spawn(x, kind=rng.choice([1, 3]), ps=True)
+                    g1 = bld.spawn(m, kind=rng.choice([1, 3]))
+                    g2 = bld.spawn(m, kind=1)
+                    if below == "handler":
+                        bld.emit("send", g1, "blk")
+                    elif below == "draining":
+                        bld.emit("send", g1, "blk")
+                        bld.emit("drain", g1)
+                    elif below == "deep":
+                        bld.spawn(g1, kind=1)
+                        bld.spawn(g2, kind=3, ps=True)
+                    # the middle node starts stopping and parks inside post_stop, children still linked
+                    bld.emit(how, m)
+                    do_exit(bld, r, cause)
+                    if parked:
+                        bld.emit("open", r, "ps")
+                    bld.emit("flush")
+                    out.append(bld.scenario(f"mid:{cause}:{top}:{how}:{below}"))
     return out
 
 
@@ -248,6 +288,10 @@ def gen_targeted(rng, count):
                 g = put_child_in_state(bld, c, rng.choice(CHILD_STATES), rng)
                 if g is not None:
                     kids.append(g)
+        # an intermediate node that is already Stopping (parked in post_stop) with live children
+        inner = [c for c in kids if bld.flags[c][2] and any(bld.sup.get(k) == c for k in kids)]
+        if inner and rng.random() < 0.7:
+            bld.emit(rng.choice(["stop", "drain"]), rng.choice(inner))
         do_exit(bld, p, cause)
         if parked:
             for _ in range(rng.randint(0, 3)):
@@ -344,7 +388,7 @@ def run(chk):
                 s["tag"] = "replay"
                 scns.append(s)
     else:
-        scns = load_corpus() + gen_systematic()
+        scns = load_corpus() + gen_systematic() + gen_stopping_middle()
         scns += gen_targeted(chk.rng, (250 if quick else 3000) * factor)
         scns += gen_random(chk.rng, (250 if quick else 3000) * factor)
 
@@ -422,7 +466,7 @@ def explain(snaps):
                 seen, todo = [], list(x[2])
                 while todo:
                     c = todo.pop()
-                    if c in seen or c >= len(pre) or (post[c][1] != 6 and post[c][3] != "None"):
+                    if c in seen or c >= len(pre) or (post[c][1] != 6 and post[c][3] != "None" and post[c][3] != pre[c][3]):
                         continue
                     seen.append(c)
                     todo += pre[c][2]
